@@ -36,7 +36,29 @@ Section Probing.
   Variable N_order : nat.
   (* bucket count of the hash table of each order (index n-2 for order n >= 2): max(count+1, multiplier*count) *)
   Variable buckets : list nat.
+  (* RestProbingModel with REST_MAX (MaxRestBuild): rest = max probability over the stored left extensions *)
+  Variable rest_max : bool.
   Definition cap (n : nat) : nat := nth (n - 2) buckets 0%nat.
+
+  Definition rest_of (t : atable) (k : key) : Z := match alookup t k with Some e => e_rest e | None => 0 end.
+  (* MaxRestBuild::MarkExtends(weights, to): rest := max(rest, to.rest); says whether it grew *)
+  Definition raise_rest (to : Z) (e : entry) : entry :=
+    {| e_prob := e_prob e; e_bo := e_bo e; e_ext := e_ext e; e_left := e_left e;
+       e_rest := if e_rest e >=? to then e_rest e else to |}.
+  (* the MarkExtends chain over `between` (orders n-1 down to basis), each compared with the next longer one *)
+  Fixpoint rest_chain (orders : list nat) (K : key) (longer : Z) (t : atable) : atable :=
+    match orders with
+    | [] => t
+    | j :: r => let t' := aupdate t (firstn j K) (raise_rest longer) in
+                rest_chain r K (rest_of t' (firstn j K)) t'
+    end.
+  (* MarkLower: below the basis, always against the basis entry, stop when nothing grows *)
+  Fixpoint mark_lower (j : nat) (K : key) (longer : Z) (t : atable) : atable :=
+    match j with
+    | O => t
+    | S j' => if rest_of t (firstn j K) >=? longer then t
+              else mark_lower j' K longer (aupdate t (firstn j K) (raise_rest longer))
+    end.
 
   (* FindLower: walk from order n-1 down; returns (table with blanks inserted, basis order) or TableFull *)
   Fixpoint find_lower (j : nat) (K : key) (t : atable) : option (atable * nat) :=
@@ -84,6 +106,10 @@ Section Probing.
               let p0 := match alookup t1 (firstn basis K) with Some e => e_prob e | None => 0 end in
               adjust (n - 1 - basis) (S basis) K p0 t1 in
           let t3 := mark_left (seq basis (n - basis)) K t2 in
+          let t3 := if rest_max then
+                      let t4 := rest_chain (rev (seq basis (n - basis))) K (g_prob g) t3 in
+                      mark_lower (basis - 1) K (rest_of t4 (firstn basis K)) t4
+                    else t3 in
           (* activate: the context must exist; it learns that it has an extension *)
           match alookup t3 (tl K) with
           | Some _ => Loaded (aupdate t3 (tl K) set_ext)
@@ -122,11 +148,21 @@ Section Probing.
   Definition zero_unk : entry := {| e_prob := 0; e_bo := 0; e_ext := true; e_left := false; e_rest := 0 |}.
   Definition final_unk (unk_prob : Z) : entry :=
     {| e_prob := unk_prob; e_bo := 0; e_ext := true; e_left := (0 <=? unk_prob); e_rest := unk_prob |}.
+  (* ApplyBuild calls SetRest for ids 0 .. counts[0]-1 only.  When the file has no <unk>, <unk> still takes id 0, so the
+     last listed unigram (id = counts[0]) never gets its rest cost set: it stays 0.0 from the zero-filled memory and,
+     being the maximum, is never raised.  (Rest costs are heuristics that cancel out once the context is revealed, so no
+     property depends on this; the model follows the code.) *)
+  Definition zero_rest (e : entry) : entry :=
+    {| e_prob := e_prob e; e_bo := e_bo e; e_ext := e_ext e; e_left := e_left e; e_rest := 0 |}.
   Definition load_probing (saw_unk : bool) (unk_prob : Z) (unigrams : list gram) (higher : list (list gram)) : loaded :=
     let t0 := map (fun g => (g_key g, uni_entry g)) unigrams in
     let t0 := if saw_unk then t0 else ([0%N], zero_unk) :: t0 in
+    let t0 := if andb rest_max (negb saw_unk)
+              then match rev unigrams with g :: _ => aupdate t0 (g_key g) zero_rest | [] => t0 end
+              else t0 in
     match add_sections 2 higher t0 with
-    | Loaded t => Loaded (if saw_unk then t else aupdate t [0%N] (fun _ => final_unk unk_prob))
+    | Loaded t => Loaded (if saw_unk then t
+                          else aupdate t [0%N] (fun e => if rest_max then zero_rest (final_unk unk_prob) else final_unk unk_prob))
     | err => err
     end.
 End Probing.
